@@ -672,7 +672,9 @@ func (s *PersistentHybridIndex) flushMemtables() error {
 		}
 
 		// Remove from queue
+		verifPoint("flush:before_drop")
 		s.memtableQueue.remove(mt)
+		verifPoint("flush:dropped")
 	}
 
 	return nil
@@ -695,6 +697,7 @@ func (s *PersistentHybridIndex) flushMemtable(mt *memtable) error {
 	if err != nil {
 		return fmt.Errorf("failed to create hybrid file: %w", err)
 	}
+	verifPoint("flush:created:hybrid")
 	defer hybridFile.Close()
 
 	hybridGz := gzip.NewWriter(hybridFile)
@@ -709,6 +712,7 @@ func (s *PersistentHybridIndex) flushMemtable(mt *memtable) error {
 		if err != nil {
 			return fmt.Errorf("failed to create vector file: %w", err)
 		}
+		verifPoint("flush:created:vector")
 		defer vectorFile.Close()
 
 		vectorGz = gzip.NewWriter(vectorFile)
@@ -721,6 +725,7 @@ func (s *PersistentHybridIndex) flushMemtable(mt *memtable) error {
 		if err != nil {
 			return fmt.Errorf("failed to create text file: %w", err)
 		}
+		verifPoint("flush:created:text")
 		defer textFile.Close()
 
 		textGz = gzip.NewWriter(textFile)
@@ -733,6 +738,7 @@ func (s *PersistentHybridIndex) flushMemtable(mt *memtable) error {
 		if err != nil {
 			return fmt.Errorf("failed to create metadata file: %w", err)
 		}
+		verifPoint("flush:created:metadata")
 		defer metadataFile.Close()
 
 		metadataGz = gzip.NewWriter(metadataFile)
@@ -754,18 +760,23 @@ func (s *PersistentHybridIndex) flushMemtable(mt *memtable) error {
 		}
 		return fmt.Errorf("failed to write index: %w", err)
 	}
+	verifPoint("flush:written")
 
 	// Close gzip writers to ensure all data is flushed
 	if vectorGz != nil {
 		vectorGz.Close()
+		verifPoint("flush:closed:vector")
 	}
 	if textGz != nil {
 		textGz.Close()
+		verifPoint("flush:closed:text")
 	}
 	if metadataGz != nil {
 		metadataGz.Close()
+		verifPoint("flush:closed:metadata")
 	}
 	hybridGz.Close()
+	verifPoint("flush:closed:hybrid")
 
 	// Get file sizes
 	var totalSize int64
@@ -794,6 +805,7 @@ func (s *PersistentHybridIndex) flushMemtable(mt *memtable) error {
 
 	// Add to segment manager
 	s.segmentManager.add(segment)
+	verifPoint("flush:registered")
 
 	return nil
 }
@@ -805,6 +817,7 @@ func (s *PersistentHybridIndex) flushWorker() {
 	for {
 		select {
 		case <-s.flushChan:
+			verifPoint("worker:flush")
 			if err := s.flushMemtables(); err != nil {
 				// Log error but continue
 				fmt.Printf("flush error: %v\n", err)
@@ -832,6 +845,7 @@ func (s *PersistentHybridIndex) compactionWorker() {
 				fmt.Printf("compaction error: %v\n", err)
 			}
 		case <-s.compactionChan:
+			verifPoint("worker:compaction")
 			if err := s.maybeCompact(); err != nil {
 				fmt.Printf("compaction error: %v\n", err)
 			}
